@@ -275,94 +275,144 @@ def fresh_dir(base: Path, top: str) -> Path:
 
 
 # --------------------------------------------------------------------------------------------- simulation
+def _sim_module(case, mod, out: dict, paths: set, pkgs: set) -> dict:
+    ns: dict = {}
+    uncertain: set = set()
+    explicit: set = set()
+    events: list = []
+    has_all = False
+    all_items: list = []
+    nbinds: dict = {}
+    dot_imported: set = set()
+    same_module: set = set()
+
+    def bind(name, info, how):
+        nbinds[name] = nbinds.get(name, 0) + 1
+        old = ns.get(name)
+        if old is not None:
+            events.append(f"{how}-over-{old['how']}")
+            if how == "wild" and info.get("origin") is not None and not info.get("helper") and old.get("origin") == info["origin"]:
+                same_module.add(name)  # a wildcard re-binds a name to the module it is already bound to
+        static = how if how != "wild" else (old["static"] if old else None)
+        ns[name] = {**info, "how": how, "static": static}
+
+    for stmt in mod["body"]:
+        t = stmt["t"]
+        if t in ("class", "def", "val"):
+            bind(stmt["name"], {"depth": 0, "chain": []}, "local")
+        elif t == "import":
+            name = stmt.get("as") or "$TOP"
+            bind(name, {"depth": 1, "chain": [], "origin": stmt["mod"] if stmt.get("as") else ""}, "import")
+            explicit.add(name)
+        elif t == "from":
+            src = out.get(stmt["mod"])
+            if stmt["names"] == "*":
+                if src is None:
+                    continue
+                exported = src["exports"] if src["exports"] is not None else [n for n in src["ns"] if not n.startswith("_")]
+                for n in exported:
+                    si = src["ns"].get(n)
+                    if si is None:
+                        sub = f"{stmt['mod']}.{n}" if stmt["mod"] else n
+                        if sub in paths:  # a sub-module listed in the package's __all__
+                            bind(n, {"depth": 1, "chain": [], "origin": sub}, "wild")
+                        continue
+                    info = {"depth": si["depth"] + 1, "chain": [(stmt["mod"], n), *si["chain"]], "via": stmt["mod"]}
+                    for k in ("origin", "helper"):
+                        if k in si:
+                            info[k] = si[k]
+                    bind(n, info, "wild")
+                # names whose presence depends on import history: sub-modules of a wildcard source package that the
+                # package does not itself import explicitly (documented special case of is_wildcard_exposed)
+                if src["exports"] is None:
+                    uncertain |= {
+                        base_name(c)
+                        for c in children(case, stmt["mod"])
+                        if not base_name(c).startswith("_") and base_name(c) not in src["explicit"]
+                    }
+                    uncertain |= src["uncertain"]
+            else:
+                for n, asname in stmt["names"]:
+                    bound = asname or n
+                    explicit.add(bound)
+                    if mod["pkg"] and stmt["mod"] == mod["path"] and stmt["level"] == 1 and not asname:
+                        dot_imported.add(n)  # `from . import sub` in an __init__ module
+                    sub = f"{stmt['mod']}.{n}" if stmt["mod"] else n
+                    if n == "__all__":
+                        bind(bound, {"depth": 1, "chain": [], "origin": stmt["mod"], "helper": True}, "from")
+                    elif src is not None and n in src["ns"]:
+                        si = src["ns"][n]
+                        info = {"depth": si["depth"] + 1, "chain": [(stmt["mod"], n), *si["chain"]], "via": stmt["mod"]}
+                        for k in ("origin", "helper"):
+                            if k in si:
+                                info[k] = si[k]
+                        bind(bound, info, "from")
+                    elif stmt["mod"] in pkgs and sub in paths:
+                        bind(bound, {"depth": 1, "chain": [], "origin": sub}, "from")
+        elif t == "all":
+            if stmt["op"] == "=":
+                has_all = True
+                all_items = []
+                bind("__all__", {"depth": 0, "chain": []}, "local")
+            for it in stmt["items"]:
+                if isinstance(it, str):
+                    all_items.append(it)
+                else:
+                    ref = it[1]
+                    origin = None
+                    if ref.endswith(".__all__"):
+                        head = ref[: -len(".__all__")]
+                        if head.startswith("$TOP"):
+                            origin = head[5:] if head != "$TOP" else ""
+                        elif head in ns:
+                            origin = ns[head].get("origin")
+                    elif ref in ns:
+                        origin = ns[ref].get("origin")
+                    if origin is not None and out.get(origin) and out[origin]["exports"] is not None:
+                        all_items += out[origin]["exports"]
+    # names bound by an explicit import alias that a later wildcard import re-binds (see known finding
+    # `stale-alias-after-wildcard-override`)
+    tainted = {n for n, i in ns.items() if i["how"] == "wild" and i["static"] in ("from", "import")}
+    return {
+        "ns": ns,
+        "exports": list(dict.fromkeys(all_items)) if has_all else None,
+        "uncertain": uncertain,
+        "explicit": explicit,
+        "events": events,
+        "tainted": tainted,
+        "dot_imported": dot_imported,
+        "same_module_rebound": same_module,
+        # `__all__` helper names (`from m import __all__ as h`) that are bound more than once, or not directly
+        "helper_rebound": {h for h, i in ns.items() if i.get("helper") and (nbinds[h] > 1 or i["how"] != "from" or i["chain"])},
+    }
+
+
 def simulate(case) -> dict:
     """Static bookkeeping over the model (used by the generator for validity and by `describe` for class labels).
 
-    Returns {path: {"ns": {name: info}, "exports": [names] | None, "uncertain": set(names), "explicit": set(names)}}
-    where info = {"depth": re-export chain length, "wild": bound by a wildcard, "origin": (module path, name)}.
-    This is NOT the oracle (CPython is); it only ever decides which names the generator may mention.
+    Returns {path: {"ns": {name: info}, "exports": [names] | None, "uncertain": set, "explicit": set, ...}} where
+    info = {"how": local|from|import|wild, "depth": re-export chain length, "chain": [(module, name), ...], ...}.
+    This is NOT the oracle (CPython is); it only decides which names the generator may mention, which names fall
+    under the documented sub-module tolerance, and the class labels.
     """
     out: dict = {}
+    paths = {m["path"] for m in case["mods"]}
     pkgs = {m["path"] for m in case["mods"] if m["pkg"]}
     for mod in case["mods"]:
-        ns: dict = {}
-        uncertain: set = set()
-        explicit: set = set()
-        events: list = []
-        has_all = False
-        all_items: list = []
-
-        def bind(name, info, how):
-            old = ns.get(name)
-            if old is not None:
-                events.append(f"{how}-over-{'wild' if old['wild'] else old['how']}")
-            ns[name] = {**info, "how": how}
-
-        for stmt in mod["body"]:
-            t = stmt["t"]
-            if t in ("class", "def", "val"):
-                bind(stmt["name"], {"depth": 0, "wild": False, "origin": (mod["path"], stmt["name"])}, "local")
-            elif t == "import":
-                name = stmt.get("as") or "$TOP"
-                target = stmt["mod"] if stmt.get("as") else ""
-                bind(name, {"depth": 1, "wild": False, "origin": (target, None)}, "import")
-                explicit.add(name)
-            elif t == "from":
-                src = out.get(stmt["mod"])
-                if stmt["names"] == "*":
-                    if src is None:
-                        continue
-                    exported = src["exports"] if src["exports"] is not None else [n for n in src["ns"] if not n.startswith("_")]
-                    for n in exported:
-                        si = src["ns"].get(n)
-                        if si is None:
-                            continue
-                        bind(n, {"depth": si["depth"] + 1, "wild": True, "origin": si["origin"], "via": stmt["mod"]}, "wild")
-                    # names whose presence depends on import history: sub-modules of a wildcard source package
-                    if src["exports"] is None:
-                        uncertain |= {base_name(c) for c in children(case, stmt["mod"]) if not base_name(c).startswith("_")}
-                        uncertain |= src["uncertain"]
-                else:
-                    for n, asname in stmt["names"]:
-                        bound = asname or n
-                        sub = f"{stmt['mod']}.{n}" if stmt["mod"] else n
-                        if src is not None and n in src["ns"]:
-                            si = src["ns"][n]
-                            bind(bound, {"depth": si["depth"] + 1, "wild": False, "origin": si["origin"], "via": stmt["mod"]}, "from")
-                        elif stmt["mod"] in pkgs and sub in {m["path"] for m in case["mods"]}:
-                            bind(bound, {"depth": 1, "wild": False, "origin": (sub, None)}, "from")
-                        elif n == "__all__":
-                            bind(bound, {"depth": 1, "wild": False, "origin": (stmt["mod"], "__all__")}, "from")
-                        explicit.add(bound)
-            elif t == "all":
-                if stmt["op"] == "=":
-                    has_all = True
-                    all_items = []
-                    bind("__all__", {"depth": 0, "wild": False, "origin": (mod["path"], "__all__")}, "local")
-                for it in stmt["items"]:
-                    if isinstance(it, str):
-                        all_items.append(it)
-                    else:
-                        ref = it[1]
-                        origin = None
-                        if ref.endswith(".__all__"):
-                            head = ref[: -len(".__all__")]
-                            if head.startswith("$TOP"):
-                                origin = head[5:] if head != "$TOP" else ""
-                            elif head in ns:
-                                origin = ns[head]["origin"][0]
-                        elif ref in ns:
-                            origin = ns[ref]["origin"][0]
-                        if origin is not None and out.get(origin) and out[origin]["exports"] is not None:
-                            all_items += out[origin]["exports"]
-        out[mod["path"]] = {
-            "ns": ns,
-            "exports": list(dict.fromkeys(all_items)) if has_all else None,
-            "uncertain": uncertain,
-            "explicit": explicit,
-            "events": events,
-        }
+        out[mod["path"]] = _sim_module(case, mod, out, paths, pkgs)
     return out
+
+
+def tolerated_names(case, sim, path: str) -> set:
+    s = sim[path]
+    own = {base_name(c) for c in children(case, path)}
+    return {n for n in s["uncertain"] if n not in s["explicit"] and n not in own}
+
+
+def mentionable(case, sim, path: str) -> list[str]:
+    """Names of module `path` that other modules may import explicitly / that may be listed in its `__all__`."""
+    tol = tolerated_names(case, sim, path)
+    return sorted(n for n in sim[path]["ns"] if n not in ("$TOP", "__all__") and n not in tol)
 
 
 def describe_labels(case, sim=None) -> tuple[bool, list[str]]:
@@ -435,11 +485,11 @@ def trees(draw, min_mods: int = 2, max_mods: int = 6):
     for i in range(1, n):
         cands = [k for k, (p, _) in enumerate(nodes) if p.count(".") < 1 or p == ""]
         # prefer the top-level package, sometimes nest
-        k = draw(st.sampled_from(cands)) if draw(st.integers(0, 2)) == 0 else 0
+        k = draw(st.sampled_from(cands)) if draw(st.integers(0, 2)) == 2 else 0
         nodes[k][1] = True
         pp = nodes[k][0]
-        name = ("_m" if draw(st.integers(0, 7)) == 0 else "m") + str(i)
-        nodes.append([f"{pp}.{name}" if pp else name, draw(st.integers(0, 5)) == 0])
+        name = ("_m" if draw(st.integers(0, 7)) == 7 else "m") + str(i)
+        nodes.append([f"{pp}.{name}" if pp else name, draw(st.integers(0, 5)) == 5])
     return [(p, bool(k)) for p, k in nodes]
 
 
@@ -463,16 +513,41 @@ def _pick_level(draw, importer: str, is_pkg: bool, target: str) -> int:
     return levels[0]
 
 
+def _pick_recent(draw, items: list):
+    """Biased towards the end of the list (the most recent modules: longer re-export chains)."""
+    a = draw(st.integers(0, len(items) - 1))
+    b = draw(st.integers(0, len(items) - 1))
+    return items[max(a, b)]
+
+
+KNOWN_STEERING = ("stale-alias-after-wildcard-override", "dot-import-submodule-not-exposed", "wildcard-rebinding-same-module-skipped")
+
+
 @st.composite
 def packages(draw, max_mods: int = 6, max_stmts: int = 6, allow_join: bool = False, all_forms: bool = True,
-             class_bodies: bool = True):
-    """Package models of profile `importable`."""
+             class_bodies: bool = True, avoid: frozenset = frozenset(), on_excluded=None):
+    """Package models of profile `importable`. `avoid`: slugs of known findings to steer away from (by construction);
+    `on_excluded(slug)` is called each time a choice is restricted because of one."""
     tree = draw(trees(2, max_mods))
     order = draw(orders(len(tree)))
     paths = [tree[i][0] for i in order]
     is_pkg = {tree[i][0]: tree[i][1] for i in order}
+    path_set = set(paths)
+    pkg_set = {p for p in paths if is_pkg[p]}
     case = {"mods": []}
     sim: dict = {}
+    avoid_stale = "stale-alias-after-wildcard-override" in avoid
+    avoid_helper = False
+    avoid_dot = "dot-import-submodule-not-exposed" in avoid
+    avoid_same = "wildcard-rebinding-same-module-skipped" in avoid
+
+    def excluded(slug):
+        if on_excluded is not None:
+            on_excluded(slug)
+
+    def resim(mod):
+        sim[mod["path"]] = _sim_module(case, mod, sim, path_set, pkg_set)
+
     for i, path in enumerate(paths):
         mod = {"path": path, "pkg": is_pkg[path], "body": []}
         case["mods"].append(mod)
@@ -483,12 +558,12 @@ def packages(draw, max_mods: int = 6, max_stmts: int = 6, allow_join: bool = Fal
         def local_stmt():
             serial[0] += 1
             name = draw(st.sampled_from(OBJ_NAMES))
-            kind = draw(st.sampled_from(("class", "def", "val", "val")))
+            kind = draw(st.sampled_from(("val", "val", "def", "class")))
             if kind == "class":
                 sub = []
                 if class_bodies and draw(st.booleans()):
                     for j in range(draw(st.integers(1, 3))):
-                        sk = draw(st.sampled_from(("def", "val", "class")))
+                        sk = draw(st.sampled_from(("val", "def", "class")))
                         sn = draw(st.sampled_from(("m", "n", "_o", "__init__" if sk == "def" else "K")))
                         one = {"t": sk, "name": sn, "serial": j}
                         if sk == "def":
@@ -501,68 +576,115 @@ def packages(draw, max_mods: int = 6, max_stmts: int = 6, allow_join: bool = Fal
                 return {"t": "def", "name": name, "serial": serial[0], "params": draw(st.sampled_from(PARAMS))}
             return {"t": "val", "name": name, "serial": serial[0]}
 
+        own_children = {base_name(p) for p in paths if p != "" and parent_path(p) == path}
+
+        def exported_names(src: str) -> list[str]:
+            s_ = sim[src]
+            return s_["exports"] if s_["exports"] is not None else [n for n in s_["ns"] if not n.startswith("_")]
+
         def importable(src: str) -> list[str]:
-            s = sim[src]
-            return sorted(n for n in s["ns"] if n not in ("$TOP", "__all__"))
+            # (documented precondition) nothing imported into a package may carry the name of one of its sub-modules,
+            # except the sub-module itself imported directly (`from . import sub`, handled below)
+            names = [n for n in mentionable(case, sim, src) if n not in own_children]
+            if avoid_stale and sim[src]["tainted"]:
+                kept = [n for n in names if n not in sim[src]["tainted"]]
+                if len(kept) != len(names):
+                    excluded("stale-alias-after-wildcard-override")
+                names = kept
+            if avoid_helper:
+                names = [n for n in names if not sim[src]["ns"][n].get("helper")]
+            return names
+
+        def wildcard_sources() -> list[str]:
+            out = []
+            cur = _sim_module(case, mod, sim, path_set, pkg_set)["ns"] if avoid_same else {}
+            for src in sources:
+                exported = set(exported_names(src))
+                if exported & own_children:
+                    continue
+                if avoid_same and any(
+                    n in cur and cur[n].get("origin") is not None and not cur[n].get("helper")
+                    and sim[src]["ns"].get(n, {}).get("origin") == cur[n]["origin"]
+                    for n in exported
+                ):
+                    excluded("wildcard-rebinding-same-module-skipped")
+                    continue
+                if avoid_stale and sim[src]["tainted"] & exported:
+                    excluded("stale-alias-after-wildcard-override")
+                    continue
+                out.append(src)
+            return out
 
         n_stmts = draw(st.integers(0, max_stmts))
         for _ in range(n_stmts):
-            roll = draw(st.integers(0, 9)) if sources else 9
-            if roll <= 2:  # wildcard
-                src = draw(st.sampled_from(sources))
+            roll = draw(st.integers(0, 10)) if sources else 0
+            if 4 <= roll <= 6:  # wildcard
+                wsrc = wildcard_sources()
+                if not wsrc:
+                    body.append(local_stmt())
+                    continue
+                src = _pick_recent(draw, wsrc)
                 body.append({"t": "from", "mod": src, "level": _pick_level(draw, path, is_pkg[path], src), "names": "*"})
-            elif roll <= 4:  # explicit from-import of objects
-                src = draw(st.sampled_from(sources))
+            elif 7 <= roll <= 8:  # explicit from-import of objects
+                src = _pick_recent(draw, sources)
                 names = importable(src)
                 if not names:
                     body.append(local_stmt())
                     continue
                 chosen = draw(st.lists(st.sampled_from(names), min_size=1, max_size=3, unique=True))
-                pairs = [[n, draw(st.sampled_from(OBJ_NAMES)) if draw(st.integers(0, 2)) == 0 else None] for n in chosen]
+                pairs = [[n, draw(st.sampled_from(OBJ_NAMES)) if draw(st.integers(0, 2)) == 2 else None] for n in chosen]
                 body.append({"t": "from", "mod": src, "level": _pick_level(draw, path, is_pkg[path], src), "names": pairs})
-            elif roll == 5:  # from <package> import <submodule> [as z]
+            elif roll == 9:  # from <package> import <submodule> [as z]
                 subs = [s for s in sources if s != ""]
                 if not subs:
                     body.append(local_stmt())
                     continue
                 sub = draw(st.sampled_from(subs))
                 pkg = parent_path(sub)
-                asname = draw(st.sampled_from(OBJ_NAMES)) if draw(st.integers(0, 2)) == 0 else None
-                body.append(
-                    {"t": "from", "mod": pkg, "level": _pick_level(draw, path, is_pkg[path], pkg), "names": [[base_name(sub), asname]]}
-                )
-            elif roll == 6:  # import a.b [as z]
+                asname = draw(st.sampled_from(OBJ_NAMES)) if draw(st.integers(0, 2)) == 2 else None
+                level = _pick_level(draw, path, is_pkg[path], pkg)
+                if avoid_dot and pkg == path and level == 1 and not asname:
+                    excluded("dot-import-submodule-not-exposed")
+                    level = 0
+                body.append({"t": "from", "mod": pkg, "level": level, "names": [[base_name(sub), asname]]})
+            elif roll == 10:  # import a.b [as z]
                 src = draw(st.sampled_from(sources))
                 asname = draw(st.sampled_from(OBJ_NAMES)) if draw(st.booleans()) else None
                 body.append({"t": "import", "mod": src, "as": asname})
             else:
                 body.append(local_stmt())
-            sim = simulate(case)
 
         # ---- __all__ (decided last: its items must exist at the end of the module)
-        sim = simulate(case)
-        if draw(st.integers(0, 9)) < 4:
-            _add_all(draw, case, mod, sim, sources, all_forms)
-            sim = simulate(case)
+        resim(mod)
+        if draw(st.integers(0, 9)) >= 6:
+            _add_all(draw, case, mod, sim, sources, all_forms, avoid_helper, i, avoid_stale, own_children, paths[:i], avoid_dot)
+            resim(mod)
         body = mod["body"]
         if allow_join:
             for k in range(1, len(body)):
                 if body[k]["t"] in ("val", "from", "import", "all") and body[k - 1]["t"] in ("val", "from", "import", "all"):
-                    if draw(st.integers(0, 9)) == 0:
+                    if draw(st.integers(0, 9)) == 9:
                         body[k]["join"] = True
     return case
 
 
-def _add_all(draw, case, mod, sim, sources, all_forms: bool) -> None:
+def _add_all(draw, case, mod, sim, sources, all_forms: bool, unique_helpers: bool, index: int, avoid_stale: bool = False,
+             own_children: frozenset = frozenset(), earlier: tuple = (), avoid_dot: bool = False) -> None:
     body = mod["body"]
     path = mod["path"]
     me = sim[path]
-    names = sorted(n for n in me["ns"] if n not in ("$TOP", "__all__"))
+    names = mentionable(case, sim, path)
+    # own sub-modules may be listed too (`__all__ = ["submodule"]`); CPython then imports them on `import *`, which is
+    # only safe for sub-modules that come earlier in the import order
+    names += sorted(base_name(c) for c in children(case, path) if c in earlier and base_name(c) not in names)
     seq = draw(st.sampled_from(("list",) * 4 + ("tuple",))) if all_forms else "list"
-    items: list = list(draw(st.lists(st.sampled_from(names), max_size=4, unique=True))) if names else []
+    items: list = [n for n in names if draw(st.booleans())]
     assign_pos = draw(st.integers(0, len(body)))
     splices = []
     spliceable = [s for s in sources if sim[s]["exports"] is not None]
+    spliceable = [s for s in spliceable if not (set(sim[s]["exports"]) & set(own_children))]
+    if avoid_stale:
+        spliceable = [s for s in spliceable if not (sim[s]["tainted"] & set(sim[s]["exports"]))]
     if all_forms and spliceable and draw(st.booleans()):
         for src in draw(st.lists(st.sampled_from(spliceable), min_size=1, max_size=2, unique=True)):
             form = draw(st.sampled_from(("star", "plus", "aug", "star-attr", "plus-attr")))
@@ -579,19 +701,22 @@ def _add_all(draw, case, mod, sim, sources, all_forms: bool) -> None:
             if src != "" and (shares_branch or draw(st.booleans())):
                 # module bound by `from <pkg> import <mod>`
                 pkg = parent_path(src)
-                pre.append({"t": "from", "mod": pkg, "level": _pick_level(draw, path, mod["pkg"], pkg), "names": [[base_name(src), None]]})
+                lvl = _pick_level(draw, path, mod["pkg"], pkg)
+                if avoid_dot and pkg == path and lvl == 1:
+                    lvl = 0
+                pre.append({"t": "from", "mod": pkg, "level": lvl, "names": [[base_name(src), None]]})
                 ref = f"{base_name(src)}.__all__"
             else:
                 pre.append({"t": "import", "mod": src, "as": None})
                 ref = "$TOP" + (f".{src}" if src else "") + ".__all__"
         else:
-            helper = (base_name(src) or "top") + "_all"
+            helper = (base_name(src) or "top") + "_all" + (f"_i{index}" if unique_helpers else "")
             pre.append({"t": "from", "mod": src, "level": level, "names": [["__all__", helper]]})
             ref = helper
-        same_type = src_seq.get(src, "list") == seq and seq != "set"
+        same_type = src_seq.get(src, "list") == seq
         kind = form.split("-")[0]
         if kind == "star" or not same_type:
-            if kind == "aug" and seq != "set":
+            if kind == "aug":
                 post.append({"t": "all", "op": "+=", "seq": seq, "ann": False, "items": [["star", ref]]})
             else:
                 items.append(["star", ref])
@@ -603,15 +728,13 @@ def _add_all(draw, case, mod, sim, sources, all_forms: bool) -> None:
         missing = [n for n in sim[src]["exports"] if n not in me["ns"]]
         if missing:
             pre.append({"t": "from", "mod": src, "level": level, "names": [[n, None] for n in missing]})
-    if seq != "set" and items and draw(st.integers(0, 3)) == 0:
-        lit = [it for it in items if isinstance(it, str)]
-        if lit:
-            moved = lit[-1]
-            items.remove(moved)
-            post.append({"t": "all", "op": "+=", "seq": seq, "ann": False, "items": [moved]})
-    assign = {"t": "all", "op": "=", "seq": seq, "ann": draw(st.integers(0, 5)) == 0, "items": items}
-    # `pre` statements re-bind names: put them first so that they cannot override what the body bound later
-    # (imports of names that are missing are new names; helper names come from their own pool).
+    lit = [it for it in items if isinstance(it, str)]
+    if lit and draw(st.integers(0, 3)) == 3:
+        moved = lit[-1]
+        items.remove(moved)
+        post.append({"t": "all", "op": "+=", "seq": seq, "ann": False, "items": [moved]})
+    assign = {"t": "all", "op": "=", "seq": seq, "ann": draw(st.integers(0, 5)) == 5, "items": items}
+    # `pre` statements bind new names only (missing names are new; helper and module names come from their own pools)
     new_body = body[:assign_pos] + pre + [assign] + body[assign_pos:]
     for p in post:
         at = draw(st.integers(assign_pos + len(pre) + 1, len(new_body)))
